@@ -256,6 +256,29 @@ def run(ctx):
         if len({frozenset(v) for v in rows.values()}) == 1 and not unknown:
             # no test in builder() distinguishes the four cases: the decision is made elsewhere (a public accessor, a shared
             # decision function returning a private type) - this rule does not follow it there: no verdict, no alarm
+            # .. except for the one row that needs no knowledge of what the function returns: with both named, the function that
+            # decides reports UrlAndConnectionSpecified and nothing else can fail first (a url parsed with `?` *before* the
+            # test turns "both named, one url malformed" into a parse error)
+            for dp_ in sorted({blk.term.rcallee for blk in b.blocks if blk.term.kind == 'call' and not blk.cleanup and blk.term.rcallee in prog.bodies
+                               and blk.term.rcallee.startswith('deadpool_redis::')}):
+                db_ = prog.bodies[dp_]
+                dan_ = prog.an(db_)
+                drows = {}
+                for vu in ('None', 'Some'):
+                    for vc in ('None', 'Some'):
+                        drows[(vu, vc)] = Eval(dan_, make_leaf(vu, vc)).explore()
+                if len({frozenset(v) for v in drows.values()}) == 1:
+                    continue
+                ctx.saw(db_)
+                blocks = drows[('Some', 'Some')]
+                errs = sorted({s_.rv.j['variant'] for x in blocks for s_ in db_.blocks[x].stmts if s_.kind == 'assign' and s_.rv.kind == 'agg' and s_.rv.j.get('adt') == 'deadpool_redis::config::ConfigError'
+                               and not s_.rv.j.get('from_residual')})
+                early = sorted({db_.blocks[x].term.line for x in blocks if not db_.blocks[x].cleanup and
+                                ((db_.blocks[x].term.kind == 'call' and any(n.endswith('FromResidual::from_residual') for n in db_.blocks[x].term.callee_names())) or
+                                 any(s_.kind == 'assign' and s_.rv.kind == 'agg' and s_.rv.j.get('from_residual') for s_ in db_.blocks[x].stmts))})
+                ok_ = errs == ['UrlAndConnectionSpecified'] and not early
+                ctx.ob('R19.1', '%s: both given -> UrlAndConnectionSpecified and nothing else (decided in %s)' % (tag, db_.name.split('::')[-1]), ok_, ctx.where(db_),
+                       'errors built %s; another failure can be returned first at line(s) %s' % (errs, early) if not ok_ else '', construct='%s:row:both:delegated' % tag)
             ctx.undecide('R19.1', '%s: builder() itself does not test url / connection (the decision is made in a function it calls): not followed' % tag)
             continue
         if unknown or not news:
